@@ -80,6 +80,10 @@ func DecodeCMPP20(data []byte) (sms.PDU, error) {
 		pdu = new(PduTerminate)
 	case cmpp.CommandTerminateResp:
 		pdu = new(PduTerminateResp)
+	case cmpp.CommandQuery:
+		pdu = new(PduQuery)
+	case cmpp.CommandQueryResp:
+		pdu = new(PduQueryResp)
 	}
 
 	if pdu == nil {
